@@ -611,7 +611,39 @@ def delete_search(ctx):
             ctx.ob(P, 'RF2-tmr-delete', f, site, 'cancelled and returned to the pool' if found else 'returns -1, pool untouched')
 
 
+def remove_returns_event(ctx):
+    """(r) COTmrRemove takes an emptied event out of the pending list and returns it to the free event list on EVERY path
+    that unlinks it - also when it was the only pending event (every SDO client step, every one-shot monitor deletes a
+    sole timer: an event leaked there drains the pool)."""
+    m = ctx.m
+    f = 'COTmrRemove'
+    m.need(f)
+    FREE = ('CO_TMR', 'Free')
+    for (nxt, what) in ((0, 'the only pending event'), (0x300, 'the head with a successor')):
+        pe = PEval(m, f)
+        pe.record_sets = False
+        pe.store_filter = lambda k, fld: fld in (FREE, ('CO_TMR', 'Use'))
+        trs = pe.run({'tmr': 1, 'tx': 0x100, 'tmr->Node': 1, 'tmr->Use': 0x100, 'tx->Next': nxt, 'tmr->Free': 0x500, 'call:COIfTimerDelay': 3})
+        site = 'COTmrRemove: %s' % what
+        bad = None
+        for t in trs:
+            st = dict((e[4][1], e[2]) for e in t.stores())
+            if st.get('Use') != nxt:
+                bad = 'pending list head becomes %s' % st.get('Use')
+            elif st.get('Free') != 0x100:
+                bad = 'the removed event is not returned to the free event list (Free = %s): one event slot is lost with every ' \
+                      'such removal' % st.get('Free')
+        if not trs:
+            bad = 'no path'
+        if bad:
+            ctx.ob(P, 'RF2-tmr-remove', f, site, None)
+            ctx.find(P, 'RF2-tmr-remove', f, 'remove:%s' % what[:24], m.loc(f, m.funcs[f].line), '%s: %s' % (site, bad))
+        else:
+            ctx.ob(P, 'RF2-tmr-remove', f, site, 'unlinked and pushed onto the free event list')
+
+
 def run(ctx):
+    remove_returns_event(ctx)
     delete_search(ctx)
     equal_expiry_merge(ctx)
     create_service_tables(ctx)
